@@ -9,7 +9,6 @@ Fixpoint model_trace (s : state) (steps : list step) : list (step * obs) :=
   | st :: rest => (st, obs_after s st) :: model_trace (step_state s st) rest
   end.
 
-Definition actor_step (st : step) : Prop := match st with Msg m => In (sender m) actors | NextBlock => True end.
 
 (** ** the model corresponds to itself *)
 Lemma pool_eqb_refl p : pool_eqb p p = true.
@@ -42,7 +41,7 @@ Lemma check_from_cons s a st b rest i x :
   let oc := snd (fst (exec_step s st)) in
   let rw := snd (exec_step s st) in
   let k5 := c05_step (height s) a st b in
-  let k6 := c06_step (height s) a st b in
+  let k6 := c06_step (height s) (cfee s) a st b in
   check_from s' b rest (i + 1)
     (mkAcc (if (a_corr x <? 0) && negb (corr_step s' oc rw b) then i else a_corr x)
            (fst (if (a_p5 x <? 0) && negb (k5 =? 0) && negb (k5 =? 3) then (i, k5) else (a_p5 x, a_c5 x)))
@@ -56,7 +55,7 @@ Proof.
   cbn [check_from]. unfold step_state. destruct (exec_step s st) as [[s' oc] rw]. cbn [fst snd]. cbv zeta.
   destruct ((a_p5 x <? 0) && negb (c05_step (height s) a st b =? 0) && negb (c05_step (height s) a st b =? 3));
   destruct ((a_k5 x <? 0) && (c05_step (height s) a st b =? 3));
-  destruct ((a_p6 x <? 0) && negb (c06_step (height s) a st b =? 0)); reflexivity.
+  destruct ((a_p6 x <? 0) && negb (c06_step (height s) (cfee s) a st b =? 0)); reflexivity.
 Qed.
 
 Lemma check_from_model steps : forall s oc0 rw0 i x,
